@@ -396,7 +396,7 @@ theorem readLoop_final (acc line : Str) (rest : List Str) (name ser t : Str) (hn
   have h2 : oddTrailingBackslashes line = false := by
     unfold oddTrailingBackslashes; unfold EvenTail at he; simp; omega
   have h3 : splitKV false (valueContent name ser) = some (name, ser) :=
-    splitKV_name name ser false (fun x hx => (hn.2.1 x hx).2) (by simp [hn.1]; exact hn.2.2.2)
+    splitKV_name name ser false (fun x hx => (hn.2.1 x hx).2) hn.2.2.2
   have h4 : stripCRLF ser = ser := by
     unfold stripCRLF
     rw [lstripP_id _ _ (fun c hc => plain_not_crlf (all_head hps hc)),
